@@ -24,7 +24,8 @@ TRUSTED = ["Coq 8.16.1 kernel + vm_compute (primitive floats: bit-exact IEEE bin
            "std Vec::sort_unstable(_by) modelled as an arbitrary sorted permutation (contract assumed, run as insertion sort)"]
 ASSUMPTIONS = ["Rust semantics of Vec/usize as modelled (checked indexing, debug overflow checks)",
                "the sampled cases are where model and code were compared; the theorems are about the model"]
-UNPROVED = ["all norm laws 'up to rounding' over f64 (searched with 1e-12 slack on data of moderate magnitude; proved over R only)",
+UNPROVED = ["all norm laws 'up to rounding' over f64 (searched with 1e-12 slack on data of moderate magnitude 1e-3..1e3; proved over R only); "
+            "they FAIL on the real code for entries whose square overflows/underflows (findings/C15-norm-range.md, replayable, not in the default search)",
             "Minkowski's inequality for general p in [1,8] (norm_p): searched, not proved",
             "powspace endpoints/monotonicity and norm_p depend on libm pow: tied by tolerance and searched, not proved",
             "Vector::random: length and range [0,1) observed only"]
@@ -32,14 +33,18 @@ UNPROVED = ["all norm laws 'up to rounding' over f64 (searched with 1e-12 slack 
 MANIFEST = dict(
     text=("Theorems about the Gallina model of src/vector (all lengths, all values, all histories): vec_run_refines (every step of "
           "every edit history satisfies its pointwise list specification, with the exact panic conditions; sort is any sorted "
-          "permutation), sum_slice_spec (value and exact guard conditions), dot bilinear/symmetric over a ring, linspace_ends "
+          "permutation; insertion sort -- the sorter the model is run with -- meets that contract on every total order, so "
+          "vec_run_refines_Qc holds outright), elementwise_spec (+ - unary- scalar forms abs entry by entry, size guards), vdiv_spec, "
+          "sum_slice_spec / product_slice_spec / sum_spec (value and exact guard conditions), dot bilinear/symmetric over a ring, linspace_ends "
           "over a field and strict monotonicity over R, and over R: non-negativity, homogeneity, triangle inequality of "
           "norm_1/norm_inf/norm_2 (Cauchy-Schwarz) and norm_inf <= norm_2 <= norm_1. Tie: the same definitions run by vm_compute "
           "against the implementation (Rat vs Qc exactly; f64/Complex bit-compared, libm-dependent norm_p/powspace by tolerance) "
           "on every length 0..64, every index range of the slice reductions for lengths <= 8 and random histories; a plain python "
           "list model and mpmath norms search for failing inputs."),
     note=("Norm laws are proved over R, not over f64 (rounding, overflow/underflow of the naive norm_2 are outside the theorems); "
-          "norm_p/powspace go through libm and are tied by tolerance; Minkowski for general p is searched only."),
+          "norm_p/powspace go through libm and are tied by tolerance; Minkowski for general p is searched only. The search draws entries of "
+          "magnitude 1e-3..1e3: for entries beyond ~1e154 (below ~1e-162) the unscaled norm_2/norm_p overflow (underflow) and the laws fail "
+          "on the real code, linspace fails when b-a overflows -- observed, written up in findings/C15-norm-range.md, not in the default search."),
     technique="Coq proof over abstract ring/field and R + model/implementation differential execution (vm_compute vs Rust executor)",
     design="7 (C15)")
 
